@@ -17,6 +17,8 @@ type C03Case struct {
 	Data    Dataset  `json:"data"`
 	Open    OpenCfg  `json:"open"`
 	Queries []*Query `json:"queries"`
+	// Scribble: the caller overwrites every Result it received (after the oracle compared it)
+	Scribble bool `json:"scribble,omitempty"`
 	// Morph: the caller keeps ONE updog.Query value and edits its exported fields in place to
 	// turn it into the next query of the history (nodes of matching type are re-used)
 	Morph bool `json:"morph,omitempty"`
@@ -186,6 +188,7 @@ func genC03(c *Ctx) any {
 	si := infoOf(cs.Data.Spec.Expand())
 	cs.Queries = relatedQueries(r, si, r.Range(5, 60))
 	cs.Morph = r.Chance(1, 4)
+	cs.Scribble = r.Chance(1, 4)
 	return cs
 }
 
@@ -247,6 +250,9 @@ func runC03(c *Ctx, body json.RawMessage) *Verdict {
 			return v.Violate("panic", "%s query %d %s panicked: %s", phase, i, q, p)
 		}
 		want := ref.Execute(q)
+		if cs.Scribble && res != nil {
+			res = cloneAndScribbleResult(res) // the oracle keeps the copy, the library's memory is overwritten
+		}
 		if dd := CompareResult(want, res, err); dd != "" {
 			fres, ferr := fidx.Execute(q.ToUpdog())
 			fd := CompareResult(want, fres, ferr)
